@@ -2,8 +2,8 @@ package engines
 
 import (
 	"fmt"
-	"os"
 	"math/big"
+	"os"
 	"strings"
 	"testing"
 
@@ -31,21 +31,21 @@ func ethCryptoKeccak(b []byte) []byte { return crypto.Keccak256(b) }
 
 // blockFixture: contracts planted at fixture time and the wallets used as senders.
 type blockFixture struct {
-	c         *chain
-	logger    common.Address // emits calldata[0] LOG0s
-	reverter  common.Address
-	storer    common.Address // calldata[0]: 1 = set 8 slots, 0 = clear them (refund)
-	burner    common.Address // infinite loop
-	sink      common.Address // accepts value
-	sds       []common.Address // self-destructors (beneficiary = first 20 bytes of calldata)
-	sdUsed    []bool
-	sdBal     []int64        // EVM-denom balance each holds
-	sdOther   []int64        // second-denom balance each holds
-	fresh     int
-	poor      *itutiltypes.TestAccount // wallet with a tiny balance
-	maxGas    int64
-	nonces    map[int]uint64 // optimistic next nonce per wallet index
-	heavy     bool
+	c                          *chain
+	logger                     common.Address // emits calldata[0] LOG0s
+	reverter                   common.Address
+	storer                     common.Address   // calldata[0]: 1 = set 8 slots, 0 = clear them (refund)
+	burner                     common.Address   // infinite loop
+	sink                       common.Address   // accepts value
+	sds                        []common.Address // self-destructors (beneficiary = first 20 bytes of calldata)
+	sdUsed                     []bool
+	sdBal                      []int64 // EVM-denom balance each holds
+	sdOther                    []int64 // second-denom balance each holds
+	fresh                      int
+	poor                       *itutiltypes.TestAccount // wallet with a tiny balance
+	maxGas                     int64
+	nonces                     map[int]uint64 // optimistic next nonce per wallet index
+	heavy                      bool
 	seqAtBegin, cosmosAdmitted map[int]uint64
 }
 
@@ -117,18 +117,18 @@ func (f *blockFixture) senders() []*itutiltypes.TestAccount {
 }
 
 type genTx struct {
-	bytes   []byte
-	opline  string // model input (without the observed execution summary)
-	sender  int
-	toW     int // wallet index credited, -1
-	kind    string
-	sdIdx   int
-	ethTx   *ethtypes.Transaction
-	cosmos  bool
-	replay  bool
-	gb, rc  uint64 // refund hook: gas used before refund, refund counter
-	cosFee  *big.Int
-	cosGas  uint64
+	bytes  []byte
+	opline string // model input (without the observed execution summary)
+	sender int
+	toW    int // wallet index credited, -1
+	kind   string
+	sdIdx  int
+	ethTx  *ethtypes.Transaction
+	cosmos bool
+	replay bool
+	gb, rc uint64 // refund hook: gas used before refund, refund counter
+	cosFee *big.Int
+	cosGas uint64
 }
 
 // records of the verif-tag refund hook, in execution order: {gasUsedBeforeRefund, counter, applied, remaining}
